@@ -20,15 +20,19 @@
 #include "core.h"
 #include "types.h"
 #include "node.h"
+#include "meta.h"
 #include "vf.h"
 
 #if defined(__SANITIZE_ADDRESS__)
 # include <sanitizer/asan_interface.h>
 # define POISONED(p) __asan_address_is_poisoned(p)
 # define HAVE_ASAN 1
+extern size_t __sanitizer_get_current_allocated_bytes(void);   /* sanitizer allocator interface */
+# define HEAP_IN_USE() __sanitizer_get_current_allocated_bytes()
 #else
 # define POISONED(p) 1
 # define HAVE_ASAN 0
+# define HEAP_IN_USE() ((size_t) 0)
 #endif
 
 const char *vf_name = "c16_ident";
@@ -964,7 +968,238 @@ static void case_locate(vf_rng *r)
 
 static uint64_t n_hist(void) { return vf_thorough ? 1000000 : 20000; }
 static uint64_t n_loc(void) { return vf_thorough ? 60000 : 4000; }
-uint64_t vf_cases(void) { return n_grid() + n_hist() + n_loc(); }
+
+/* ------------------------------------------ clones of nodes with values */
+/*
+ * mpt_node_clone / mpt_list_clone / mpt_tree_clone copy the node name together
+ * with the node's value (metatype).  The value here is a harness metatype whose
+ * clone() accepts or refuses.  Accepted: names of the copy equal the source's,
+ * source untouched.  Refused (anywhere in the list / tree): NULL, source
+ * untouched, and nothing of the half-built copy stays allocated - neither a
+ * value clone (live count of harness metatypes) nor a name (bytes in use of the
+ * allocator before and after the call, and a LeakSanitizer pass in the case).
+ */
+typedef struct { MPT_INTERFACE(metatype) mt; uintptr_t refs; int accept; int is_clone; } hmeta;
+static long hmeta_live, hmeta_clones, hmeta_refused;
+static int hm_convert(MPT_INTERFACE(convertable) *val, MPT_TYPE(type) type, void *ptr)
+{
+	(void) val; (void) ptr;
+	return type ? MPT_ERROR(BadType) : 0;
+}
+static void hm_unref(MPT_INTERFACE(metatype) *mt)
+{
+	hmeta *h = (hmeta *) mt;
+	if (!h->refs) vf_fail("model:clone:value-released-twice", "unref of a value that has no reference left");
+	if (--h->refs) return;
+	hmeta_live--;
+	free(h);
+}
+static uintptr_t hm_addref(MPT_INTERFACE(metatype) *mt)
+{
+	return ++((hmeta *) mt)->refs;
+}
+static MPT_INTERFACE(metatype) *hm_clone(const MPT_INTERFACE(metatype) *mt);
+static const MPT_INTERFACE_VPTR(metatype) hm_ctl = { { hm_convert }, hm_unref, hm_addref, hm_clone };
+static hmeta *hm_new(int accept)
+{
+	hmeta *h = malloc(sizeof(*h));
+	if (!h) vf_inconclusive("out of memory");
+	h->mt._vptr = &hm_ctl; h->refs = 1; h->accept = accept; h->is_clone = 0;
+	hmeta_live++;
+	return h;
+}
+static MPT_INTERFACE(metatype) *hm_clone(const MPT_INTERFACE(metatype) *mt)
+{
+	const hmeta *h = (const hmeta *) mt;
+	if (!h->accept) { hmeta_refused++; return 0; }
+	hmeta *c = hm_new(1);
+	c->is_clone = 1;
+	hmeta_clones++;
+	return &c->mt;
+}
+
+#define CMAXN 8
+typedef struct {
+	MPT_STRUCT(node) *nd;
+	int parent;                      /* index of parent, -1: top level */
+	size_t n; uint8_t name[4100];
+	uint8_t snap[4 + 256]; size_t snaplen; const void *ext;
+	int has_meta, accept;
+} cnode;
+static cnode CN[CMAXN];
+static int ncn;
+static const size_t CLONE_LENS[] = { 0, 1, 11, 18, 19, 20, 21, 22, 82, 83, 84, 85, 86, 210, 211, 212, 213, 214, 300, 4000 };
+#define NCLONE_LENS (sizeof(CLONE_LENS) / sizeof(*CLONE_LENS))
+static int cn_add(int parent, size_t len, unsigned salt, size_t nodesize, int meta)
+{
+	cnode *c = &CN[ncn];
+	vf_at("mpt_node_new"); vf_count("mpt_node_new", 1);
+	c->nd = mpt_node_new(nodesize);
+	VF_CHECK(c->nd != 0, "model:node_new:null", "mpt_node_new(%zu) returned NULL", nodesize);
+	c->parent = parent; c->n = len;
+	gen_bytes(c->name, len, salt, 0);
+	char *src = vf_xalloc(len);
+	if (len) memcpy(src, c->name, len);
+	vf_at("mpt_identifier_set"); vf_count("mpt_identifier_set", 1);
+	VF_CHECK(mpt_identifier_set(&c->nd->ident, src, (int) len) != 0, "model:set:refused", "set(node, text %zu bytes) returned NULL", len);
+	vf_xfree(src, len);
+	c->has_meta = meta != 0; c->accept = meta == 1;
+	if (meta) c->nd->_meta = &hm_new(meta == 1)->mt;
+	return ncn++;
+}
+static void cn_link(void)
+{
+	for (int i = 0; i < ncn; i++) {
+		MPT_STRUCT(node) *prev = 0;
+		for (int j = 0; j < ncn; j++) {
+			if (CN[j].parent != i) continue;
+			CN[j].nd->parent = CN[i].nd;
+			CN[j].nd->prev = prev;
+			if (prev) prev->next = CN[j].nd; else CN[i].nd->children = CN[j].nd;
+			prev = CN[j].nd;
+		}
+	}
+	/* top level nodes form a list */
+	MPT_STRUCT(node) *prev = 0;
+	for (int j = 0; j < ncn; j++) {
+		if (CN[j].parent >= 0) continue;
+		CN[j].nd->prev = prev;
+		if (prev) prev->next = CN[j].nd;
+		prev = CN[j].nd;
+	}
+	for (int i = 0; i < ncn; i++) {
+		const MPT_STRUCT(identifier) *id = &CN[i].nd->ident;
+		CN[i].snaplen = 4 + id->_max;
+		memcpy(CN[i].snap, id, CN[i].snaplen);
+		CN[i].ext = ext_ptr(id);
+	}
+}
+static void cn_source_unchanged(const char *ctx)
+{
+	for (int i = 0; i < ncn; i++) {
+		const MPT_STRUCT(identifier) *id = &CN[i].nd->ident;
+		VF_CHECK(!memcmp(CN[i].snap, id, CN[i].snaplen) && CN[i].ext == ext_ptr(id), "model:clone:source-modified", "%s: name object of source node %d changed", ctx, i);
+		VF_CHECK(id->_len == CN[i].n + 1 && (!CN[i].n || !memcmp(mpt_identifier_data(id), CN[i].name, CN[i].n)), "model:clone:source-modified", "%s: name of source node %d changed", ctx, i);
+	}
+	vf_count("monitor:source-unchanged", 1);
+}
+/* compare clone subtree with source nodes: names, order, children */
+static int cn_compare(const MPT_STRUCT(node) *c, int parent, int only, const char *ctx)
+{
+	int count = 0;
+	for (int i = 0; i < ncn; i++) {
+		if (only >= 0 ? i != only : CN[i].parent != parent) continue;
+		VF_CHECK(c != 0, "model:clone:node-missing", "%s: copy of source node %d is missing", ctx, i);
+		const MPT_STRUCT(identifier) *id = &c->ident;
+		VF_CHECK(id->_len == CN[i].n + 1 && (!CN[i].n || !memcmp(mpt_identifier_data(id), CN[i].name, CN[i].n)) && !((const char *) mpt_identifier_data(id))[CN[i].n], "model:clone:name",
+		         "%s: copy of source node %d: name of %u bytes %s.., expected %zu bytes %s..", ctx, i, id->_len, vf_hex(hx1, sizeof(hx1), mpt_identifier_data(id), id->_len > 24 ? 24 : id->_len),
+		         CN[i].n + 1, vf_hex(hx2, sizeof(hx2), CN[i].name, CN[i].n > 24 ? 24 : CN[i].n));
+		VF_CHECK(!mpt_identifier_inequal(id, &CN[i].nd->ident), "model:clone:name", "%s: copy of source node %d: mpt_identifier_inequal reports a difference", ctx, i);
+		VF_CHECK(!is_ext(id) || id->_base != CN[i].nd->ident._base, "model:clone:shared-storage", "%s: copy of source node %d shares the name block", ctx, i);
+		VF_CHECK((c->_meta != 0) == CN[i].has_meta && (!c->_meta || c->_meta != CN[i].nd->_meta), "model:clone:value", "%s: copy of source node %d: value %p, source value %p", ctx, i, (void *) c->_meta, (void *) CN[i].nd->_meta);
+		vf_count("monitor:clone-name-compared", 1);
+		count++;
+		if (only < 0 || parent == -2) count += cn_compare(c->children, i, -1, ctx);   /* subtrees of list / tree clones */
+		if (only >= 0) return count;
+		c = c->next;
+	}
+	if (only < 0) VF_CHECK(c == 0, "model:clone:extra-node", "%s: copy has more nodes than the source", ctx);
+	return count;
+}
+static void cn_destroy_list(MPT_STRUCT(node) *first, const char *ctx)
+{
+	while (first) {
+		MPT_STRUCT(node) *next = first->next;
+		first->next = first->prev = first->parent = 0;
+		vf_at("mpt_node_destroy"); vf_count("mpt_node_destroy", 1);
+		VF_CHECK(!mpt_node_destroy(first), "model:node_destroy:refused", "%s: node not destroyed", ctx);
+		first = next;
+	}
+}
+static uint64_t n_clone(void) { return NCLONE_LENS * 4 * 3 * 6; }
+static void case_clone(uint64_t idx)
+{
+	size_t L = CLONE_LENS[idx % NCLONE_LENS];
+	int sizing = (idx / NCLONE_LENS) % 4, shape = (idx / (NCLONE_LENS * 4)) % 3, var = (idx / (NCLONE_LENS * 12)) % 6;
+	static const char *shapes[] = { "mpt_node_clone", "mpt_list_clone", "mpt_tree_clone" };
+	size_t nodesize = sizing == 0 ? 0 : sizing == 1 ? 60 : sizing == 2 ? 200 : L + 1;
+	char ctx[200];
+	int refuse_at = -1;      /* index of the node whose value refuses to be cloned */
+	ncn = 0;
+	vf_fp_u64(0xc10e0000 + idx);
+	/*
+	 * value variants: 0 no values, 1 all accept, 2..5 one refuses (position by shape)
+	 * source: node clone: node 0 (with one child that is not part of a node clone);
+	 * list: 0,1,2 top level, 3 child of 1; tree: 0 root, 1..3 children, 4 child of 2
+	 */
+	long live0 = hmeta_live;
+	if (shape == 0) {
+		refuse_at = var >= 2 ? 0 : -1;
+		cn_add(-1, L, 1, nodesize, var == 0 ? 0 : var >= 2 ? 2 : 1);
+		cn_add(0, L ? L - 1 : 1, 2, 0, var == 0 ? 0 : 1);
+	} else if (shape == 1) {
+		refuse_at = var >= 2 ? var - 2 : -1;
+		for (int i = 0; i < 3; i++) cn_add(-1, L + (i == 1), 1 + i, i == 2 ? 0 : nodesize, var == 0 ? 0 : refuse_at == i ? 2 : (i == 1 && var == 1) ? 0 : 1);
+		cn_add(1, L, 7, nodesize, var == 0 ? 0 : refuse_at == 3 ? 2 : 1);
+	} else {
+		static const int at[] = { -1, -1, 0, 1, 3, 4 };
+		refuse_at = at[var];
+		cn_add(-1, L, 1, nodesize, var == 0 ? 0 : refuse_at == 0 ? 2 : 1);
+		for (int i = 1; i <= 3; i++) cn_add(0, L + (i == 2), 1 + i, i == 1 ? 0 : nodesize, var == 0 ? 0 : refuse_at == i ? 2 : 1);
+		cn_add(2, L, 9, nodesize, var == 0 ? 0 : refuse_at == 4 ? 2 : 1);
+	}
+	cn_link();
+	snprintf(ctx, sizeof(ctx), "%s, names of about %zu bytes in nodes of mpt_node_new(%zu) (inline capacity %u), %s", shapes[shape], L, nodesize, CN[0].nd->ident._max,
+	         var == 0 ? "no values" : refuse_at < 0 ? "all values clonable" : "one value refuses to be cloned");
+	vf_log("%s (refusing node %d)", ctx, refuse_at);
+	long clones0 = hmeta_clones, live1 = hmeta_live;
+	size_t heap0 = HEAP_IN_USE();
+	MPT_STRUCT(node) *copy;
+	vf_at(shapes[shape]); vf_count(shapes[shape], 1);
+	switch (shape) {
+	case 0: copy = mpt_node_clone(CN[0].nd); break;
+	case 1: copy = mpt_list_clone(CN[0].nd); break;
+	default: copy = mpt_tree_clone(CN[0].nd);
+	}
+	size_t heap1 = HEAP_IN_USE();
+	cn_source_unchanged(ctx);
+	int any_long = 0;
+	for (int i = 0; i < ncn; i++) if (is_ext(&CN[i].nd->ident)) any_long = 1;
+	if (refuse_at >= 0) {
+		VF_CHECK(copy == 0, "model:clone:refusal-ignored", "%s: a copy was returned although the value of node %d cannot be cloned", ctx, refuse_at);
+		VF_CHECK(hmeta_live == live1, "model:clone:value-leaked", "%s: refused, but %ld value clone(s) of the abandoned copy are still alive", ctx, hmeta_live - live1);
+		if (HAVE_ASAN) VF_CHECK(heap1 == heap0, "model:clone:memory-kept-after-refusal", "%s: refused, but %zd bytes allocated during the call are still in use (name storage of the abandoned copy)", ctx, (ssize_t) (heap1 - heap0));
+		vf_count("clone:refused", 1);
+		if (is_ext(&CN[refuse_at].nd->ident)) vf_count("clone:refused-node-has-out-of-line-name", 1);
+		else if (any_long) vf_count("clone:refused-other-node-has-out-of-line-name", 1);
+	} else {
+		VF_CHECK(copy != 0, "model:clone:refused", "%s: returned NULL", ctx);
+		int expect = shape == 0 ? 1 : ncn, metas = 0;
+		for (int i = 0; i < (shape == 0 ? 1 : ncn); i++) metas += CN[i].has_meta;
+		int got = shape == 0 ? cn_compare(copy, -1, 0, ctx) : shape == 1 ? cn_compare(copy, -1, -1, ctx) : cn_compare(copy, -2, 0, ctx);
+		VF_CHECK(got == expect, "model:clone:node-count", "%s: copy has %d nodes, source %d", ctx, got, expect);
+		if (shape == 0) VF_CHECK(!copy->children && !copy->next, "model:clone:extra-node", "%s: copy of a single node has relatives", ctx);
+		VF_CHECK(hmeta_clones - clones0 == metas, "model:clone:value", "%s: %ld values cloned for %d nodes with value", ctx, hmeta_clones - clones0, metas);
+		cn_destroy_list(copy, ctx);
+		VF_CHECK(hmeta_live == live1, "model:clone:value-leaked", "%s: copy destroyed, %ld value clone(s) still alive", ctx, hmeta_live - live1);
+		if (HAVE_ASAN) VF_CHECK(HEAP_IN_USE() == heap0, "model:clone:memory-kept-after-destroy", "%s: copy destroyed, %zd bytes of it still in use", ctx, (ssize_t) (HEAP_IN_USE() - heap0));
+		vf_count("clone:accepted", 1);
+		if (any_long) vf_count("clone:accepted-with-out-of-line-name", 1);
+	}
+	/* source goes away */
+	const void *ext[CMAXN];
+	for (int i = 0; i < ncn; i++) ext[i] = ext_ptr(&CN[i].nd->ident);
+	MPT_STRUCT(node) *top = CN[0].nd;
+	cn_destroy_list(top, ctx);
+	for (int i = 0; i < ncn; i++) check_released("node_destroy", ext[i], 0, ctx);
+	VF_CHECK(hmeta_live == live0, "model:clone:value-leaked", "%s: source destroyed, %ld value(s) still alive", ctx, hmeta_live - live0);
+	if (any_long) vf_nontrivial();
+	vf_at("leak-check"); vf_count("monitor:clone-leak-check", 1);
+	if (vf_leak_check()) vf_fail("model:clone:leaked-memory", "%s: LeakSanitizer finds unreachable memory after the case", ctx);
+	if (idx % 97 == 13) vf_sample("clone: %s", ctx);
+}
+
+uint64_t vf_cases(void) { return n_grid() + n_hist() + n_loc() + n_clone(); }
 
 void vf_case(uint64_t idx, vf_rng *r)
 {
@@ -972,5 +1207,7 @@ void vf_case(uint64_t idx, vf_rng *r)
 	if (idx < n_grid()) { case_grid(idx); return; }
 	idx -= n_grid();
 	if (idx < n_hist()) { case_history(r); return; }
-	case_locate(r);
+	idx -= n_hist();
+	if (idx < n_loc()) { case_locate(r); return; }
+	case_clone(idx - n_loc());
 }
